@@ -75,6 +75,9 @@ func Materialise(root string, t Tree, vars map[string]string) error {
 		case "chardev":
 			// /dev/null's numbers; needs privileges
 			if err := syscall.Mknod(p, syscall.S_IFCHR|0644, 1<<8|3); err != nil {
+				if err == syscall.EPERM || err == syscall.EACCES {
+					continue // not privileged: the tree simply has no device node
+				}
 				return err
 			}
 		case "socket":
